@@ -110,6 +110,7 @@ class Interp:
         self.solver_calls = 0
         self.solver_time = 0.0
         self.active_calls = []
+        self.known_lens = {}  # sexpr of a byte term -> its concrete length (syntactic knowledge used by structural slicing)
         self.pure = False  # clause-evaluation mode: total (exception-free), non-forking boolean structure
         from . import stubs
         self.stubs = stubs
@@ -135,6 +136,9 @@ class Interp:
         x = z3.Const(self.fresh_name(hint), BSort)
         if length is not None:
             self.assume(z3.Length(x) == (length.e if isinstance(length, VInt) else length))
+            n = length.conc if isinstance(length, VInt) else length if isinstance(length, int) else None
+            if n is not None:
+                self.known_lens[x.sexpr()] = n
         return VBytes(x)
 
     def fresh_str(self, hint="s"):
@@ -193,6 +197,17 @@ class Interp:
             return True
         if z3.is_false(cond):
             return False
+        # first the length-only relaxation (sound for `unsat`, and much cheaper than the sequence theory)
+        from . import smt
+        rel = smt.relaxed_lengths(list(self.facts) + list(self.pc) + [z3.Not(cond)])
+        if rel is not None:
+            s = z3.Solver()
+            s.set("timeout", self.FEAS_TIMEOUT_MS)
+            for f in rel:
+                s.add(f)
+            self.solver_calls += 1
+            if s.check() == z3.unsat:
+                return True
         return self.check_sat(z3.Not(cond)) == "unsat"
 
     def branch(self, cond) -> bool:
